@@ -447,8 +447,12 @@ package queue
 //@ pred stateAllowed(st State, allowed []State, want State) := (exists i int :: 0 <= i && i < len(allowed) && allowed[i] == st) && (want == "" || st == want)
 //@ pred filterMatches(e *Envelope, req MessageManageFilterRequest, allowed []State) := stateAllowed(e.State, allowed, req.State) && (req.Route == "" || e.Route == req.Route) && (req.Target == "" || e.Target == req.Target) && (req.Before == 0 || e.ReceivedAt < req.Before)
 
+//@ spec
+//@ pred newerThan(a *Envelope, b *Envelope) := a.ReceivedAt > b.ReceivedAt || (a.ReceivedAt == b.ReceivedAt && a.ID > b.ID)
+
 //@ func (*MemoryStore).filterManageCandidatesLocked$1
-//@   trusted
+//@   requires 0 <= i && i < len(candidates) && 0 <= j && j < len(candidates) && candidates[i] != nil && candidates[j] != nil
+//@   ensures result <==> newerThan(candidates[i], candidates[j])
 
 //@ func (*MemoryStore).filterManageCandidatesLocked
 //@   monitor locked
@@ -464,6 +468,8 @@ package queue
 //@   ensures [C14:candidates_match_every_criterion] forall k int :: 0 <= k && k < len(result) ==> result[k] != nil && result[k].ID in s.items && s.items[result[k].ID] == result[k] && filterMatches(result[k], req, allowed)
 //@   ensures [C14:candidates_distinct] forall j int, k int :: 0 <= j && j < k && k < len(result) ==> result[j] != result[k]
 //@   ensures [C14:limit_default_and_cap] len(result) <= effLimit(req.Limit)
+//@   ensures [C14:newest_first] forall j int, k int :: 0 <= j && j < k && k < len(result) ==> !newerThan(result[k], result[j])
+//@   ensures [C14:limit_keeps_the_newest] forall id string :: id in s.items && filterMatches(s.items[id], req, allowed) ==> (let p := perminv[pos[id]] :: (0 <= p && p < len(result) && result[p] == s.items[id]) || (forall k int :: 0 <= k && k < len(result) ==> !newerThan(s.items[id], result[k])))
 //@   ensures [C14:nothing_matching_left_below_limit] len(result) < effLimit(req.Limit) ==> forall id string :: id in s.items && filterMatches(s.items[id], req, allowed) ==> let k := perminv[pos[id]] :: 0 <= k && k < len(result) && result[k] == s.items[id]
 
 //@ spec
